@@ -4,6 +4,7 @@
 package main
 
 import (
+	"golang.org/x/net/bpf"
 	"crypto/sha256"
 	"encoding/json"
 	"flag"
@@ -459,13 +460,40 @@ func (r *runner) builderStream(rng *rand.Rand) error {
 	r.sum.Rule = "seeded call sequences of the public builder (NewLabel/SetLabel/JmpIf/JmpIfTrue/Ret/LdHi/LdLo/Assemble), profile " + *profile +
 		" (wf: forward jumps, each label placed once, final return; any: one malformation added); distances drawn from {0,1,2,…,254..258,509..513,…}; " +
 		"non-trivial = at least one jump whose label is more than one instruction away; distinct by request line"
+	type heldProg struct {
+		req, reply string
+		insts      []bpf.Instruction
+	}
+	var held []heldProg
 	for i := 0; i < *n; i++ {
 		mode := *profile
 		if mode == "mix" {
 			mode = []string{"wf", "wf", "any"}[rng.Intn(3)]
 		}
 		bp := vd.GenBuilder(rng, mode)
-		req, goReply, _ := bp.Run()
+		req, goReply, insts := bp.Run()
+		// histories: an instruction list returned earlier must still read the same after later
+		// Assemble calls of other programs (the caller owns what it was given)
+		for _, h := range held {
+			if now := vd.RenderProg(h.insts); now != h.reply {
+				m := Mismatch{Case: fmt.Sprintf("%s#%d", mode, i), Request: h.req, Go: now, Model: h.reply,
+					Note: "history: Assemble(this request) returned the list shown under model; after Assemble of the later request " + req + " the same returned slice reads as shown under implementation"}
+				m.Oracle, _ = r.model.Ask("Y " + strings.TrimPrefix(h.req, "B ") + " " + strings.TrimPrefix(now, "OK "))
+				if !strings.HasPrefix(m.Oracle, "CEX ") {
+					m.FailingInput = "the instruction list returned by an earlier Program.Assemble was overwritten by a later Assemble of another program"
+				}
+				r.mismatch(m)
+				held = nil
+				break
+			}
+		}
+		if insts != nil && strings.HasPrefix(goReply, "OK ") {
+			held = append(held, heldProg{req, goReply, insts})
+			if len(held) > 4 {
+				held = held[1:]
+			}
+			r.tag("history:earlier-results-rechecked")
+		}
 		for t := range bp.Tags {
 			r.tag(t)
 		}
